@@ -1,2 +1,207 @@
-(* C16 — placeholder, replaced below *)
-From WK Require Import Base.Base Model.Membership Model.Membership_C16.
+(* C16 — Per-user conversation cursors are monotonic.
+   Only statements, each closed by [exact] of a lemma from Proof/Membership*.v.
+
+   Vocabulary (Model/Membership.v, Model/Membership_C16.v): [mut] = one public
+   meta.Shard / meta.WriteBatch call on a UserChannelMembership or
+   UserCMDChannelMembership row; [c16_op] = a direct call, a committed-or-refused
+   write batch, or a complete paginated directory pass; [c16_exec] = the state
+   after a history from an empty DB; [get_row] / [get_cmd] = what
+   GetUserChannelMembership / GetUserCMDChannelMembership return;
+   [membership_boundary k a us] / [cmd_boundary k a us] = the monitor's
+   classification "the mutations [us] contain a delete / recreate boundary for
+   the row [a] of key k" (a delete; an Upsert of a live row with a newer source
+   version on a (possibly) tombstoned row; an Ensure with a newer source version
+   on a row that (possibly) already has a non-zero one; for CMD rows a live
+   Upsert on a (possibly) tombstoned binding).  "Incarnation" reading of the
+   property text as fixed in DESIGN.md §7: cursors never move backwards within
+   one incarnation of the row. *)
+From WK Require Import Base.Base Gen.Consts_C16 Model.Membership Model.Membership_C16
+  Proof.Membership Proof.Membership_C16 Proof.Membership_order Proof.Membership_scan
+  Proof.Membership_monitor.
+From Coq Require Import Sorting.Sorted.
+Open Scope N_scope.
+
+(* ---- cursors ----------------------------------------------------------------------------- *)
+
+(* c16_cursor_monotone: between any two points of any history (direct calls,
+   batches, passes, replays, in any interleaving), if the mutations in between
+   contain no boundary for the row, the row is still there and ReadSeq,
+   DeletedToSeq and SourceVersion have not moved backwards *)
+Theorem c16_cursor_monotone : forall pre ops k a,
+  get_row (c16_exec mstate_empty pre) k = Some a ->
+  membership_boundary k a (flat_map op_muts ops) = false ->
+  exists b, get_row (c16_exec mstate_empty (pre ++ ops)) k = Some b
+            /\ m_read_seq a <= m_read_seq b /\ m_deleted_to_seq a <= m_deleted_to_seq b
+            /\ m_source_version a <= m_source_version b.
+Proof. exact cursor_monotone_fields. Qed.
+Print Assumptions c16_cursor_monotone.
+
+(* the command-channel acknowledgement sequence likewise *)
+Theorem c16_ack_monotone : forall pre ops k a,
+  get_cmd (c16_exec mstate_empty pre) k = Some a ->
+  cmd_boundary k a (flat_map op_muts ops) = false ->
+  exists b, get_cmd (c16_exec mstate_empty (pre ++ ops)) k = Some b /\ c_ack_seq a <= c_ack_seq b.
+Proof. exact history_ack_monotone. Qed.
+Print Assumptions c16_ack_monotone.
+
+(* c16_recreate_needs_newer_source: the only steps at which a cursor may decrease
+   are a delete of the key or an Upsert / Ensure of that key carrying a source
+   version strictly greater than the stored row's *)
+Theorem c16_recreate_needs_newer_source : forall k a us,
+  membership_boundary k a us = true ->
+  exists u, In u us /\
+    (u = MDelete k
+     \/ exists slot m, (u = MUpsert slot m \/ u = MEnsure slot m)
+                       /\ membership_key slot m = k /\ m_source_version a < m_source_version m).
+Proof. exact recreate_needs_newer_source. Qed.
+Print Assumptions c16_recreate_needs_newer_source.
+
+(* for CMD rows the only such step is rebinding: an Upsert of a live binding *)
+Theorem c16_ack_reset_needs_rebind : forall k a us,
+  cmd_boundary k a us = true ->
+  exists slot c, In (MCmdUpsert slot c) us /\ cmd_membership_key slot c = k /\ c_tombstone c = false.
+Proof. exact ack_reset_needs_rebind. Qed.
+Print Assumptions c16_ack_reset_needs_rebind.
+
+(* c16_stale_source_refused: a subscriber-derived Upsert with an older source
+   version, or an Ensure with a source version not newer than the stored one,
+   leaves the row unchanged (any state) *)
+Theorem c16_stale_source_refused : forall st slot m a,
+  get_row st (membership_key slot m) = Some a ->
+  (m_source_version m < m_source_version a ->
+   get_row (snd (direct_apply st (MUpsert slot m))) (membership_key slot m) = Some a)
+  /\ (m_source_version m <= m_source_version a ->
+      get_row (snd (direct_apply st (MEnsure slot m))) (membership_key slot m) = Some a).
+Proof. exact stale_source_refused. Qed.
+Print Assumptions c16_stale_source_refused.
+
+(* c16_tombstone_ignores_personal: read advance / activate / hide on a tombstoned
+   membership change nothing *)
+Theorem c16_tombstone_ignores_personal : forall st u k a,
+  get_row st k = Some a -> m_tombstone a = true -> personal_call u k ->
+  snd (direct_apply st u) = st.
+Proof. exact tombstone_ignores_personal. Qed.
+Print Assumptions c16_tombstone_ignores_personal.
+
+(* ---- directory index and passes -------------------------------------------------------------- *)
+
+(* c16_index_consistent: in every reachable state the activation index holds
+   exactly one entry per row, keyed by the row's current ActivatedAt *)
+Theorem c16_index_consistent : forall ops e,
+  let st := c16_exec mstate_empty ops in
+  (In e (st_index st) <-> exists k row, get_row st k = Some row /\ e = activation_entry (k_slot k) row)
+  /\ NoDup (st_index st).
+Proof. exact index_consistent_full. Qed.
+Print Assumptions c16_index_consistent.
+
+(* the listing of (slot, uid): exactly its rows, once each, ordered by
+   (ActivatedAt descending, channel id in key order, channel type) *)
+Theorem c16_directory_listing_exact : forall pre slot uid,
+  let st := c16_exec mstate_empty pre in
+  (forall m, In m (directory_listing st slot uid) <->
+             exists k, k_slot k = slot /\ k_uid k = uid /\ get_row st k = Some m)
+  /\ NoDup (directory_listing st slot uid)
+  /\ StronglySorted (fun a b => entry_compare (activation_entry slot a) (activation_entry slot b) = Lt)
+       (directory_listing st slot uid).
+Proof. exact listing_exact. Qed.
+Print Assumptions c16_directory_listing_exact.
+
+(* c16_pagination_exact: from any reachable state, a complete pass with any
+   positive page sizes, interleaved with any calls on other users' rows, ends
+   with done and returns exactly that listing, provided the listed rows have
+   non-negative activation times (the cursor validation of the code refuses
+   negative ones: c16_negative_activation_stops_pass) and the page budget exceeds
+   the number of rows *)
+Theorem c16_pagination_exact : forall pre slot uid limits between fuel,
+  let st := c16_exec mstate_empty pre in
+  validateKeyString uid = true ->
+  Forall (fun l => (0 < l)%Z) limits ->
+  Forall (fun u => bytes_eqb (mut_uid u) uid = false) between ->
+  (forall m, In m (directory_listing st slot uid) -> (0 <= m_activated_at m)%Z) ->
+  (length (directory_listing st slot uid) < fuel)%nat ->
+  let '(ps, _, _) := scan_pass fuel st slot uid limits between 0 page_cursor_zero in
+  pages_well_formed ps = true /\ pages_rows ps = directory_listing st slot uid.
+Proof. exact pagination_exact. Qed.
+Print Assumptions c16_pagination_exact.
+
+(* ---- the monitor evaluated on implementation traces accepts every model trace ------------------ *)
+
+(* [ops_covered mkeys ops]: the alphabet contains every membership key a valid
+   mutation of the history addresses (the harness builds it that way) *)
+Theorem c16_model_satisfies_monitor : forall mkeys ckeys ops,
+  NoDup mkeys -> ops_covered mkeys ops ->
+  C16_monitor (C16History mkeys ckeys (c16_run mkeys ckeys mstate_empty ops)) = 0.
+Proof. exact history_model_satisfies_monitor. Qed.
+Print Assumptions c16_model_satisfies_monitor.
+
+Theorem c16_resolve_model_satisfies_monitor : forall existing exists_ incoming,
+  C16_monitor (C16Resolve existing exists_ incoming
+                 (resolveUserChannelMembership existing exists_ incoming)
+                 (resolveEnsuredUserChannelMembership existing exists_ incoming)) = 0.
+Proof. exact resolve_model_satisfies_monitor. Qed.
+Print Assumptions c16_resolve_model_satisfies_monitor.
+
+Theorem c16_resolve_cmd_model_satisfies_monitor : forall existing exists_ incoming,
+  C16_monitor (C16ResolveCmd existing exists_ incoming
+                 (resolveUserCMDChannelMembership existing exists_ incoming)) = 0.
+Proof. exact resolve_cmd_model_satisfies_monitor. Qed.
+Print Assumptions c16_resolve_cmd_model_satisfies_monitor.
+
+(* ---- Examples ------------------------------------------------------------------------------------ *)
+
+(* read advance, hide, and an older read: cursors only grow *)
+Example c16_example_history :
+  let k := example_key (hx "61") in
+  let st := c16_exec mstate_empty
+              [OpDirect (MUpsert 5 (example_row (hx "61") 3 0 10%Z false 1));
+               OpDirect (MAdvanceRead k 8 200%Z); OpDirect (MHide k 5 300%Z);
+               OpBatch [MAdvanceRead k 4 400%Z; MActivate k 30%Z 400%Z]] in
+  get_row st k = Some (Membership (hx "7531") (hx "61") 2%Z 1 8 5 30%Z false 0%Z 1 400%Z).
+Proof. vm_compute. reflexivity. Qed.
+
+(* the recreate boundary: a rejoin with a newer source version on a tombstone
+   installs the incoming row (cursors restart), and the monitor classifies it *)
+Example c16_example_recreate :
+  let k := example_key (hx "61") in
+  let pre := [OpDirect (MUpsert 5 (example_row (hx "61") 9 9 10%Z false 1));
+              OpDirect (MUpsert 5 (example_row (hx "61") 0 0 0%Z true 2))] in
+  let u := MUpsert 5 (example_row (hx "61") 2 0 0%Z false 3) in
+  (exists a, get_row (c16_exec mstate_empty pre) k = Some a /\ m_read_seq a = 9
+             /\ membership_boundary k a [u] = true)
+  /\ (exists b, get_row (c16_exec mstate_empty (pre ++ [OpDirect u])) k = Some b /\ m_read_seq b = 2).
+Proof. vm_compute. split; eexists; repeat split; reflexivity. Qed.
+
+(* the same write with the stored source version is refused as far as cursors go *)
+Example c16_example_same_version_keeps_cursors :
+  let k := example_key (hx "61") in
+  let st := c16_exec mstate_empty
+              [OpDirect (MUpsert 5 (example_row (hx "61") 9 9 10%Z false 1));
+               OpDirect (MUpsert 5 (example_row (hx "61") 0 0 0%Z true 2));
+               OpDirect (MUpsert 5 (example_row (hx "61") 2 0 0%Z false 2))] in
+  exists b, get_row st k = Some b /\ m_read_seq b = 9 /\ m_tombstone b = false.
+Proof. vm_compute. eexists. repeat split; reflexivity. Qed.
+
+(* a pass over three rows with page sizes 1,2 in key order: (act 30, "b"), (act 10, "a"), (act 10, "ab"):
+   the shorter channel id sorts first inside one activation time *)
+Example c16_example_pass :
+  let st := c16_exec mstate_empty
+              [OpBatch [MUpsert 5 (example_row (hx "6162") 0 0 10%Z false 1);
+                        MUpsert 5 (example_row (hx "61") 0 0 10%Z false 1);
+                        MUpsert 5 (example_row (hx "62") 0 0 30%Z false 1)]] in
+  map m_channel_id (directory_listing st 5 (hx "7531")) = [hx "62"; hx "61"; hx "6162"]
+  /\ (let '(ps, _, _) := scan_pass 8 st 5 (hx "7531") [1%Z; 2%Z] [] 0 page_cursor_zero in
+      map (fun p => match p with PageObs rows _ done _ => (length rows, done) end) ps
+      = [(1%nat, false); (2%nat, true)]).
+Proof. vm_compute. split; reflexivity. Qed.
+
+(* c16_negative_activation_stops_pass: an Upsert may store a negative ActivatedAt;
+   the cursor returned after such a row is refused by the next page call, so the
+   pass cannot be completed (hence the hypothesis of c16_pagination_exact) *)
+Example c16_negative_activation_stops_pass :
+  let st := c16_exec mstate_empty
+              [OpBatch [MUpsert 5 (example_row (hx "61") 0 0 (-5)%Z false 1);
+                        MUpsert 5 (example_row (hx "62") 0 0 (-7)%Z false 1)]] in
+  let '(ps, _, _) := scan_pass 8 st 5 (hx "7531") [1%Z] [] 0 page_cursor_zero in
+  map (fun p => match p with PageObs rows _ done err => (length rows, done, err) end) ps
+  = [(1%nat, false, PageOk); (0%nat, false, PageInvalid)].
+Proof. vm_compute. reflexivity. Qed.
